@@ -306,17 +306,76 @@ def decide_read(ploidy, info, rvs):
     return (h + 1, m - second, pick)
 
 
-def boundary_reads_check(ctx, case, slim, chrom, regs, used, inrecs, exp_idx, idx_exp, cur, truth_of, swap, coll_names, coll_bx):
+def read_key(case, rec):
+    """a read = (sample of its read group, name): reads of different samples that share a name are different reads
+    (with --ignore-read-groups there is one pool of reads: the name alone)"""
+    return rec["name"] if case["opts"].get("ignore_read_groups") else (aln_sample(case, rec), rec["name"])
+
+
+def records_per_read(case, inrecs):
+    per = {}
+    for r in inrecs:
+        if r["chrom"] is not None:
+            per[read_key(case, r)] = per.get(read_key(case, r), 0) + 1
+    return per
+
+
+def shared_name_reads_check(ctx, case, slim, chrom, regs, used, inrecs, exp_idx, idx_exp, cur, truth_of, swap, shared):
+    """Read names that occur in SEVERAL samples on this chromosome (BAM merged from runs whose read names are only unique per
+    run; read groups not ignored): every such alignment is a read of ITS sample (read group -> SM) and must be judged against
+    that sample's haplotypes, whatever happened to the equally named read of another sample.  For the alignments that are a read
+    of their own within their sample (one record of that (sample, name); not in a read cloud) the tag the property demands is
+    computed here from the generator's truth alone (alleles put into the read, phasing of the read's sample, plain Python) and
+    compared with what haplotag wrote: best-agreeing haplotype -> HP/PC/PS, tie / no phased heterozygous variant / sample not
+    in use / record not used -> untagged.  (Mates, supplementary records and read clouds with a shared name go through the
+    ground-truth correspondence with the Lean model, whose request is keyed by (sample, name) as well.)"""
+    o = case["opts"]
+    if o.get("ignore_read_groups") or not shared:
+        return
+    linked_on = o.get("linked_read_distance_cutoff") is not None and not o.get("ignore_linked_read")
+    per_read = records_per_read(case, inrecs)
+    judged = 0
+    for k in idx_exp:
+        rec = cur[k]
+        sams = shared.get((chrom, rec["name"]))
+        if not sams or len(sams) < 2:
+            continue
+        if per_read.get(read_key(case, rec), 0) != 1 or (linked_on and rec["bx"] is not None):
+            continue
+        t = truth_of[exp_idx[k]]
+        sa = aln_sample(case, rec)
+        exp, rvs, why = (None, None, None), [], "its sample is not in use"
+        if sa in used:
+            why = "the record is not used (unmapped / secondary / supplementary / MAPQ < 20)"
+            if usable(rec):
+                idxs = set(sample_variants(case, sa, chrom, regs))
+                info = phase_info(case, sa, chrom, sorted(idxs), swap)
+                q = 30 if not o.get("no_reference") else t["qual"]
+                rvs = [[case["variants"][chrom][i]["pos"], a, q] for i, a in t["truth"] if i in idxs]
+                exp = decide_read(case["ploidy"], info, rvs)
+                why = "scores %s" % {ps: sc for ps, sc in agree_scores(case["ploidy"], info, sorted(rvs)).items()}
+        judged += 1
+        if swap is None:
+            ctx.dist("shared_name_read_expected", "tagged" if exp[0] is not None else ("untagged: " + (why if not why.startswith("scores") else "tie or no phased het variant")))
+            ctx.dist("shared_name_read_position", "sample %d of %d in use" % (used.index(sa) + 1, len(used)) if sa in used else "sample not in use")
+        if tuple(rec["tagvals"]) != exp:
+            others = sorted(str(x) for x in sams if x != sa)
+            ctx.fail(f"{'exchanged VCF, ' if swap else ''}{chrom} {rec['name']} (read group {rec['rg']}, sample {sa!r}, start {rec['start']}, flag {rec['flag']}): the name also occurs on "
+                     f"a read of sample(s) {others} on this chromosome, but this alignment is a read of sample {sa!r}: it carries alleles {sorted(rvs)} (position, allele, quality), "
+                     f"against the haplotypes of its own sample ({why}) the property demands HP/PC/PS {list(exp)}, haplotag wrote {list(rec['tagvals'])} (samples in use: {used})",
+                     slim, key="shared-name-own-sample")
+    if swap is None:
+        ctx.dist("shared_name_reads_judged", min(judged // 10 * 10, 50) if judged >= 10 else min(judged, 9))
+
+
+def boundary_reads_check(ctx, case, slim, chrom, regs, used, inrecs, exp_idx, idx_exp, cur, truth_of, swap):
     """Alignments whose first / last aligned base is exactly a phased heterozygous SNV (generator stream `add_boundary_reads`):
     the read covers that SNV fully, so its allele counts like any other.  For the boundary reads that are a read of their own
     (one record of that name) the expected tag is computed here from the generator's truth alone — neither the reader's
     output nor the Lean model is consulted — and compared with what haplotag wrote.  (Mates / supplementary records on a
     boundary are judged by the ground-truth correspondence through the Lean model of create_read_from_group.)"""
     o = case["opts"]
-    per_name = {}
-    for r in inrecs:
-        if r["chrom"] is not None:
-            per_name[r["name"]] = per_name.get(r["name"], 0) + 1
+    per_name = records_per_read(case, inrecs)
     for k in idx_exp:
         t = truth_of[exp_idx[k]]
         b = t.get("bnd")
@@ -326,7 +385,7 @@ def boundary_reads_check(ctx, case, slim, chrom, regs, used, inrecs, exp_idx, id
         if swap is None:
             ctx.dist("boundary_side_kind", f"{b['side']}/{b['kind']}"); ctx.dist("boundary_clip", b["clip"]); ctx.dist("boundary_role", b["role"])
             ctx.dist("boundary_variant_type", "SNV" if b.get("snv", True) else "indel anchor on the first aligned base")
-        if per_name.get(rec["name"], 0) != 1 or rec["name"] in coll_names or (rec["bx"] is not None and rec["bx"] in coll_bx):
+        if per_name.get(read_key(case, rec), 0) != 1:
             continue
         owners = [s for s in used if o.get("ignore_read_groups") or rec["rg"] in rg_ids(case, s)]
         if len(owners) > 1:
@@ -382,7 +441,7 @@ def aln_sample(case, rec):
 def find_collisions(case, inrecs):
     """read names and barcodes that occur on alignments of more than one sample (read groups not ignored)"""
     if case["opts"].get("ignore_read_groups"):
-        return set(), set()
+        return set(), set(), {}
     by_name, by_bx = {}, {}
     for r in inrecs:
         if r["chrom"] is None:
@@ -391,7 +450,8 @@ def find_collisions(case, inrecs):
         by_name.setdefault((r["chrom"], r["name"]), set()).add(sa)
         if r["bx"] is not None:
             by_bx.setdefault((r["chrom"], r["bx"]), set()).add(sa)
-    return {n for (_, n), ss in by_name.items() if len(ss) > 1}, {b for (_, b), ss in by_bx.items() if len(ss) > 1}
+    return ({n for (_, n), ss in by_name.items() if len(ss) > 1}, {b for (_, b), ss in by_bx.items() if len(ss) > 1},
+            {k: ss for k, ss in by_name.items() if len(ss) > 1})
 
 
 def sample_selection(ctx, case, files):
@@ -718,8 +778,14 @@ def run_case(ctx, case, d):
     lines = [l.rstrip("\n").split("\t") for l in open(lst)][1:]
     used = samples_in_use(case)
     det_cache = {}
-    coll_names, coll_bx = find_collisions(case, inrecs)
-    ctx.dist("names_in_two_samples", min(len(coll_names), 3)); ctx.dist("barcodes_in_two_samples", min(len(coll_bx), 3))
+    coll_names, coll_bx, shared_names = find_collisions(case, inrecs)
+    ctx.dist("names_in_two_samples", min(len(coll_names), 3) if len(coll_names) < 10 else "10+"); ctx.dist("barcodes_in_two_samples", min(len(coll_bx), 3))
+    ctx.dist("read_names", case.get("name_scheme", "unique in the BAM"))
+    # a read = (sample, name) / a cloud = (sample, barcode) unless read groups are ignored: the keys of the Lean requests
+    irg_ = bool(o.get("ignore_read_groups"))
+    qz = lambda sm, x: x if (x is None or irg_) else f"{'~none~' if sm is None else sm}{SEP}{x}"
+    qname = lambda r: qz(aln_sample(case, r), r["name"])
+    qbx = lambda r: qz(aln_sample(case, r), r["bx"])
     model_run_check(ctx, case, files, inrecs, outrecs, exp_idx, lines, regions, used, write_missing, det_cache)
     # unplaced tail untouched (also the three tags)
     for e, r in zip(expected, outrecs):
@@ -761,8 +827,8 @@ def run_case(ctx, case, d):
             idx_exp = [k for k, r in enumerate(expected) if r["chrom"] == chrom]
             if not idx_exp:
                 continue
-            alns_req = [[expected[k]["name"], bool(expected[k]["flag"] & 4), bool(expected[k]["flag"] & 256), bool(expected[k]["flag"] & 2048),
-                         expected[k]["start"], expected[k]["bx"]] for k in idx_exp]
+            alns_req = [[qname(expected[k]), bool(expected[k]["flag"] & 4), bool(expected[k]["flag"] & 256), bool(expected[k]["flag"] & 2048),
+                         expected[k]["start"], qbx(expected[k])] for k in idx_exp]
             reqs = {}
             reads_by_name = {m: {} for m in MODES}
             for mode in MODES:
@@ -781,14 +847,14 @@ def run_case(ctx, case, d):
                         names_sorted = [n for n in det_order if n in got] + sorted((n for n in got if n not in det_order), key=lambda n: (got[n][1][0][0] if got[n][1] else 0, n))
                         reads = [[n, got[n][0], bx[n], got[n][1]] for n in names_sorted]
                     for r in reads:
-                        reads_by_name[mode][r[0]] = (s, info, r[3])
-                    samples_req.append({"phase": info, "reads": reads})
+                        reads_by_name[mode][qz(s, r[0])] = (s, info, r[3])
+                    samples_req.append({"phase": info, "reads": [[qz(s, n_), st_, qz(s, bx_), rvs_] for n_, st_, bx_, rvs_ in reads]})
                 reqs[mode] = dict(op="c10.chrom", ploidy=case["ploidy"], cutoff=(o.get("linked_read_distance_cutoff") if o.get("linked_read_distance_cutoff") is not None else 50000),
                                   ignoreLinked=bool(o.get("ignore_linked_read")), tagSupp=bool(o.get("tag_supplementary")), samples=samples_req, alns=alns_req)
             ans = ctx.model.ask_many([reqs[m] for m in MODES])
             alt_tags = {m: ans[MODES.index(m)].get("tags") for m, _, _ in ALTERNATIVES}
             adm_by_name, adm_by_bx = {}, {}
-            bx_of = {expected[k]["name"]: expected[k]["bx"] for k in idx_exp}
+            bx_of = {qname(expected[k]): qbx(expected[k]) for k in idx_exp}
             for a in ans:
                 for names_, adm in a.get("clouds", []):
                     if len(names_) > 1 and len(adm) > 1:
@@ -803,8 +869,6 @@ def run_case(ctx, case, d):
             for k in idx_exp:
                 rec = cur[k]
                 hp, pc, ps = rec["tagvals"]
-                if rec["name"] in coll_names or (rec["bx"] is not None and rec["bx"] in coll_bx):
-                    continue                # shared between samples: judged by the whole-run model (finding F71)
                 eligible = not (rec["flag"] & 4 or rec["flag"] & 256 or ((rec["flag"] & 2048) and not o.get("tag_supplementary")))
                 if hp is None:
                     if ps is not None or pc is not None:
@@ -825,7 +889,7 @@ def run_case(ctx, case, d):
                 if linked_on and rec["bx"] is not None:
                     continue                # cloud scores: covered by the correspondence (model = theorem best_agreeing on the cloud)
                 for mode in ("detected", "truth"):
-                    ent = reads_by_name[mode].get(rec["name"])
+                    ent = reads_by_name[mode].get(qname(rec))
                     if ent is None:
                         msg = "no read with phased heterozygous variants"
                     else:
@@ -837,14 +901,16 @@ def run_case(ctx, case, d):
                         key = "best-agreeing" if mode == "detected" else "truth-alleles"
                         if mode == "truth":
                             for m_, k_, _ in ALTERNATIVES:
-                                ent0 = reads_by_name[m_].get(rec["name"])
+                                ent0 = reads_by_name[m_].get(qname(rec))
                                 if ent0 is not None and check_rule(case["ploidy"], ent0[1], ent0[2], hp, pc, ps) is None:
                                     key = k_
                                     break
                         ctx.fail(f"{'exchanged VCF, ' if swapped else ''}{chrom} {rec['name']} tagged HP={hp} PC={pc} PS={ps} but ({mode} alleles) {msg}",
                                  slim, key=key)
+            # ---- reads whose name occurs in several samples against the generator's truth (Python only)
+            shared_name_reads_check(ctx, case, slim, chrom, regs, used, inrecs, exp_idx, idx_exp, cur, truth_of, swap, shared_names)
             # ---- boundary reads against the generator's truth (Python only)
-            boundary_reads_check(ctx, case, slim, chrom, regs, used, inrecs, exp_idx, idx_exp, cur, truth_of, swap, coll_names, coll_bx)
+            boundary_reads_check(ctx, case, slim, chrom, regs, used, inrecs, exp_idx, idx_exp, cur, truth_of, swap)
             # ---- correspondence with the Lean model
             for mode, a in zip(MODES[:2], ans):
                 if "error" in a and a.get("tags") is None:
@@ -855,10 +921,8 @@ def run_case(ctx, case, d):
                     impl = list(rec["tagvals"])
                     if impl == mt:
                         continue
-                    if rec["name"] in coll_names or (rec["bx"] is not None and rec["bx"] in coll_bx):
-                        continue
-                    if tuple(impl) in adm_by_name.get(rec["name"], ()) or (
-                            linked_on and rec["name"] not in adm_by_name and tuple(impl) in adm_by_bx.get(rec["bx"], ())):
+                    if tuple(impl) in adm_by_name.get(qname(rec), ()) or (
+                            linked_on and qname(rec) not in adm_by_name and tuple(impl) in adm_by_bx.get(qbx(rec), ())):
                         ctx.observe("read cloud with tied phase sets: the reported set depends on Python set order; implementation's "
                                     "choice is one of the model's admissible decisions")
                         continue
@@ -868,7 +932,7 @@ def run_case(ctx, case, d):
                         ctx.disagree("c10.chrom/detected-alleles", {"case": slim, "alignment": rec["name"], "chrom": chrom, "swapped": swapped}, impl, mt)
                     else:
                         # the alleles the generator put into the read give another decision than the ones whatshap saw
-                        det = reads_by_name["detected"].get(rec["name"]); tru = reads_by_name["truth"].get(rec["name"])
+                        det = reads_by_name["detected"].get(qname(rec)); tru = reads_by_name["truth"].get(qname(rec))
                         alt = next(((k_, w_) for m_, k_, w_ in ALTERNATIVES if alt_tags[m_] is not None and alt_tags[m_][pos_] == impl), None)
                         if alt:
                             ctx.fail(alt[1] + ": " + what + f"; read as assembled by whatshap {det[2] if det else None}, "
@@ -886,12 +950,10 @@ def run_case(ctx, case, d):
         tau = {sw["i"] + 1: sw["j"] + 1, sw["j"] + 1: sw["i"] + 1}
         moved = 0
         linked_on = o.get("linked_read_distance_cutoff") is not None and not o.get("ignore_linked_read")
-        amb_bx = {e["bx"] for e in expected if e["name"] in amb and e["bx"] is not None} if linked_on else set()
+        amb_bx = {qbx(e) for e in expected if qname(e) in amb and e["bx"] is not None} if linked_on else set()
         for e, r1, r2 in zip(expected, outrecs, outrecs2):
-            if e["name"] in amb or (e["bx"] is not None and e["bx"] in amb_bx):
+            if qname(e) in amb or (e["bx"] is not None and qbx(e) in amb_bx):
                 ctx.observe("read cloud with tied phase sets: result depends on Python set order (skipped in the symmetry check)")
-                continue
-            if e["name"] in coll_names or (e["bx"] is not None and e["bx"] in coll_bx):
                 continue
             hp, pc, ps = r1["tagvals"]
             in_set = (hp is not None and ps == sw["ps"] and e["chrom"] == sw["chrom"] and sw["sample"] in used
@@ -943,6 +1005,8 @@ def run(ctx):
             force = {}
             if i % 6 == 1:
                 force["ploidy"] = 3 + (i // 6) % 2
+            if i % 4 == 2:
+                force["name_scheme"] = "per-sample" if i % 8 == 2 else "run-prefixed"      # only takes effect with reads of several samples
             case = c10_gen.gen_case(ctx.rng, size=1.0 if ctx.quick else ctx.rng.choice([1.0, 1.0, 2.0]), force=force)
             run_case(ctx, case, d)
     finally:
